@@ -48,6 +48,7 @@ type vRCfg struct {
 	batcher    bool
 	bmin, bmax int
 	retry      bool
+	block      bool
 	telMode    int
 }
 
@@ -60,7 +61,7 @@ func vrb(b bool) int64 {
 
 func (c vRCfg) term() string {
 	v := []int64{int64(c.sig), vrb(c.queue), 0, vrb(c.itemsSizer), int64(c.capacity), 0, vrb(c.qbatch),
-		int64(c.qmin), int64(c.qmax), vrb(c.batcher), int64(c.bmin), int64(c.bmax), vrb(c.retry), vrb(c.telMode == 0)}
+		int64(c.qmin), int64(c.qmax), vrb(c.batcher), int64(c.bmin), int64(c.bmax), vrb(c.retry), vrb(c.telMode == 0), vrb(c.block)}
 	it := make([]string, len(v))
 	for i, x := range v {
 		it[i] = vZ(x)
@@ -216,6 +217,7 @@ type vRObs struct {
 	capGauge int64
 	offered  int64
 	refused  int64
+	sends    []int64
 	p        *vRPusher
 	problem  string
 }
@@ -253,6 +255,7 @@ func vC19RunReal(cfg vRCfg, outs []vROut, ops []vROp) vRObs {
 		qc := internal.NewDefaultQueueConfig()
 		qc.NumConsumers = 1
 		qc.QueueSize = int64(cfg.capacity)
+		qc.BlockOnOverflow = cfg.block
 		if cfg.itemsSizer {
 			qc.Sizer = RequestSizerTypeItems
 		}
@@ -269,7 +272,7 @@ func vC19RunReal(cfg vRCfg, outs []vROut, ops []vROp) vRObs {
 		options = append(options, WithBatcher(bc))
 	}
 	var be *internal.BaseExporter
-	var send func(n int, salt int) error
+	var send func(ctx context.Context, n int, salt int) error
 	switch cfg.sig {
 	case 0:
 		e, err := NewTraces(context.Background(), set, &struct{}{}, func(_ context.Context, td ptrace.Traces) error {
@@ -279,7 +282,7 @@ func vC19RunReal(cfg vRCfg, outs []vROut, ops []vROp) vRObs {
 			panic(err)
 		}
 		be = e.(*tracesExporter).BaseExporter
-		send = func(n, salt int) error { return e.ConsumeTraces(context.Background(), vC19RT(n, salt)) }
+		send = func(ctx context.Context, n, salt int) error { return e.ConsumeTraces(ctx, vC19RT(n, salt)) }
 	case 1:
 		e, err := NewMetrics(context.Background(), set, &struct{}{}, func(_ context.Context, md pmetric.Metrics) error {
 			return p.push(md.DataPointCount(), func(k int) error { return consumererror.NewMetrics(errors.New("partial"), vC19RM(k, 1)) })
@@ -288,7 +291,7 @@ func vC19RunReal(cfg vRCfg, outs []vROut, ops []vROp) vRObs {
 			panic(err)
 		}
 		be = e.(*metricsExporter).BaseExporter
-		send = func(n, salt int) error { return e.ConsumeMetrics(context.Background(), vC19RM(n, salt)) }
+		send = func(ctx context.Context, n, salt int) error { return e.ConsumeMetrics(ctx, vC19RM(n, salt)) }
 	default:
 		e, err := NewLogs(context.Background(), set, &struct{}{}, func(_ context.Context, ld plog.Logs) error {
 			return p.push(ld.LogRecordCount(), func(k int) error { return consumererror.NewLogs(errors.New("partial"), vC19RL(k, 1)) })
@@ -297,7 +300,7 @@ func vC19RunReal(cfg vRCfg, outs []vROut, ops []vROp) vRObs {
 			panic(err)
 		}
 		be = e.(*logsExporter).BaseExporter
-		send = func(n, salt int) error { return e.ConsumeLogs(context.Background(), vC19RL(n, salt)) }
+		send = func(ctx context.Context, n, salt int) error { return e.ConsumeLogs(ctx, vC19RL(n, salt)) }
 	}
 	if err := be.Start(context.Background(), componenttest.NewNopHost()); err != nil {
 		panic(err)
@@ -350,14 +353,33 @@ func vC19RunReal(cfg vRCfg, outs []vROut, ops []vROp) vRObs {
 	for i, op := range ops {
 		if op.code == 0 {
 			obs.offered += int64(op.n)
-			err := send(op.n, i)
+			ctx := context.Background()
+			cancel := func() {}
+			if qb != nil && cfg.block {
+				ctx, cancel = context.WithTimeout(ctx, 25*time.Millisecond)
+			}
+			err := send(ctx, op.n, i)
+			cancel()
+			note := func(k int64) {
+				if qb != nil {
+					obs.sends = append(obs.sends, k)
+				}
+			}
 			switch {
-			case err == nil || qb == nil:
+			case err == nil:
 				accepted += int64(op.n)
-			case errors.Is(err, queuebatch.ErrQueueIsFull) || err.Error() == "element size too large":
+				note(0)
+			case qb == nil:
+				accepted += int64(op.n)
+			case errors.Is(err, queuebatch.ErrQueueIsFull):
 				obs.refused += int64(op.n)
-			case cfg.batcher && !cfg.queue: // wait_for_result: the Send returns the export's error
-				accepted += int64(op.n)
+				note(1)
+			case err.Error() == "element size too large":
+				obs.refused += int64(op.n)
+				note(2)
+			case errors.Is(err, context.DeadlineExceeded) || errors.Is(err, context.Canceled):
+				obs.refused += int64(op.n)
+				note(3)
 			default:
 				if obs.problem == "" {
 					obs.problem = "send: unexpected error " + err.Error()
@@ -432,6 +454,9 @@ func vC19GenReal(rng *vRand) (cfg vRCfg, outs []vROut, ops []vROp, class string)
 		} else {
 			cfg.bmin, cfg.bmax = mn, mx
 		}
+	}
+	if cfg.queue && rng.Intn(3) == 0 {
+		cfg.block = true
 	}
 	nops := 2 + rng.Intn(6)
 	nexports := 0
@@ -520,7 +545,13 @@ func TestVerifC19ExpReal(t *testing.T) {
 			gs[k] = vZ(g)
 		}
 		term := fmt.Sprintf("CExp %s %s %s %s %s %s", j.cfg.term(), vList(os), vList(ps), vC19Vec(o.tel.vec), vList(gs),
-			vList([]string{vZ(o.capGauge), vZ(0)}))
+			vList(append([]string{vZ(o.capGauge), vZ(0)}, func() []string {
+				r := make([]string, len(o.sends))
+				for i, k := range o.sends {
+					r[i] = vZ(k)
+				}
+				return r
+			}()...)))
 		s := j.cfg.sig
 		sent, failed, enq := o.tel.vec[16+s], o.tel.vec[19+s], o.tel.vec[22+s]
 		wfr := j.cfg.batcher && !j.cfg.queue
